@@ -86,6 +86,12 @@ impl<'gc> Mutation<'gc> {
     pub(crate) fn upgrade(&self, gc_ptr: GcPtr) -> bool {
         self.context.upgrade(gc_ptr)
     }
+
+    /// Verification hook: read-only snapshot of the collector state.
+    #[cfg(gc_arena_verif)]
+    pub fn verif_snapshot(&self) -> VerifSnapshot {
+        self.context.verif_snapshot()
+    }
 }
 
 /// Handle value given to finalization callbacks in `MarkedArena`.
@@ -692,6 +698,84 @@ impl Context {
         header.set_color(GcColor::Gray);
         self.gray_again.push(gc_ptr);
         self.metrics.mark_gc_untraced(1);
+    }
+}
+
+/// Verification hook: one entry of the all-objects list, in list order.
+#[cfg(gc_arena_verif)]
+#[derive(Debug, Clone, Copy, Eq, PartialEq)]
+pub struct VerifObject {
+    /// Address of the value (what `Gc::as_ptr` returns, as a thin address).
+    pub addr: usize,
+    /// 0 = White, 1 = WhiteWeak, 2 = Gray, 3 = Black.
+    pub color: u8,
+    pub live: bool,
+    pub needs_trace: bool,
+    /// True if the collector is sweeping and has not yet visited this object.
+    pub pending_sweep: bool,
+}
+
+/// Verification hook: read-only snapshot of the collector state.
+#[cfg(gc_arena_verif)]
+#[derive(Debug, Clone)]
+pub struct VerifSnapshot {
+    /// 0 = Mark, 1 = Sweep, 2 = Sleep, 3 = Drop.
+    pub phase: u8,
+    pub root_needs_trace: bool,
+    pub objects: Vec<VerifObject>,
+    pub gray: Vec<usize>,
+    pub gray_again: Vec<usize>,
+}
+
+#[cfg(gc_arena_verif)]
+impl Context {
+    pub(crate) fn verif_snapshot(&self) -> VerifSnapshot {
+        let mut objects = Vec::new();
+        let mut pending = false;
+        let mut cur = self.all.get();
+        while let Some(gc_ptr) = cur {
+            if self.phase == Phase::Sweep && self.sweep.is_some_and(|s| s.addr_eq(gc_ptr)) {
+                pending = true;
+            }
+            let header = gc_ptr.header();
+            objects.push(VerifObject {
+                addr: gc_ptr.as_ptr() as usize,
+                color: match header.color() {
+                    GcColor::White => 0,
+                    GcColor::WhiteWeak => 1,
+                    GcColor::Gray => 2,
+                    GcColor::Black => 3,
+                },
+                live: header.is_live(),
+                needs_trace: header.needs_trace(),
+                pending_sweep: pending,
+            });
+            cur = header.next();
+        }
+        VerifSnapshot {
+            phase: match self.phase {
+                Phase::Mark => 0,
+                Phase::Sweep => 1,
+                Phase::Sleep => 2,
+                Phase::Drop => 3,
+            },
+            root_needs_trace: self.root_needs_trace,
+            objects,
+            gray: self.gray.verif_items(),
+            gray_again: self.gray_again.verif_items(),
+        }
+    }
+}
+
+#[cfg(gc_arena_verif)]
+impl Queue<GcPtr> {
+    fn verif_items(&self) -> Vec<usize> {
+        unsafe {
+            (*self.vec.get().cast_const())
+                .iter()
+                .map(|p| p.as_ptr() as usize)
+                .collect()
+        }
     }
 }
 
